@@ -18,7 +18,7 @@ ASSUMPTIONS = ['oracle: the returned rotation maps both unit references onto bot
                'reference vectors and directions per estimator are those in mc/ref/filters.py (documentation of each class); OLEQ start vector: '
                'np.random.random is an owned seam returning each vector of a fixed menu',
                'OLEQ: tolerance max(1e-6, 1e-7 rho/(1-rho)) with rho the documented contraction ratio of its fixed-point iteration (stopping test 1e-8 on successive iterates)', 'accelerometer-only variants are judged on the gravity direction only']
-REQUIRED_CLASSES = ['S', 'Gp', 'int-samples', 'weights-option', 'default-references', 'tilt-only', 'pose:level', 'pose:inverted', 'pose:vertical', 'pose:half-turn']
+REQUIRED_CLASSES = ['S', 'Gp', 'int-samples', 'weights-option', 'default-references', 'option-spellings', 'tilt-only', 'pose:level', 'pose:inverted', 'pose:vertical', 'pose:half-turn']
 DIPS_Q = [-45.0, 0.0, 60.0]
 DIPS_T = [-80.0, -45.0, -10.0, 0.0, 1e-9, 10.0, 45.0, 60.0, 80.0]
 SCAL_Q = [(1.0, 1.0), (9.81, 45.0)]
@@ -399,6 +399,67 @@ def job_default_refs(ctx, k):
     ctx.sample({'default_references': {'TRIAD.v1': np.asarray(F.TRIAD().v1).tolist(), 'TRIAD.v2': np.asarray(F.TRIAD().v2).tolist()}})
 
 
+def job_option_spellings(ctx, k):
+    """Option strings are matched case-insensitively by every validator of these entry points (frame.upper(), representation.lower()).
+    A spelling that the entry point ACCEPTS selects the same frame / representation as the canonical spelling: the answers are equal.
+    (A spelling that is refused with ValueError is a refusal and is not judged here.)"""
+    from ahrs import filters as F
+    from ahrs.common import orientation as O
+    atts = [a for a in attitudes('Gp', k)][::17][:8]
+    dip = 60.0
+
+    def spell(s):
+        return [s.lower(), s.capitalize(), s.upper()] if s.upper() in ('NED', 'ENU') else [s.upper(), s.capitalize()]
+
+    def oleq(a, m, fr):
+        real_random = np.random.random
+        np.random.random = lambda *args, **kw: OLEQ_STARTS[0].copy()
+        try:
+            return F.OLEQ(a, m, magnetic_ref=dip, frame=fr).Q
+        finally:
+            np.random.random = real_random
+    entries = [('ecompass', ('rotmat', 'quaternion', 'rpy', 'axisangle'), lambda a, m, fr, rep: O.ecompass(a, m, frame=fr, representation=rep)),
+               ('am2DCM', (None,), lambda a, m, fr, rep: O.am2DCM(a, m, frame=fr)),
+               ('am2q', (None,), lambda a, m, fr, rep: O.am2q(a, m, frame=fr)),
+               ('TRIAD(one sample)', ('rotmat', 'quaternion'), lambda a, m, fr, rep: F.TRIAD(a, m, frame=fr, representation=rep).A),
+               ('TRIAD(N samples)', ('rotmat', 'quaternion'), lambda a, m, fr, rep: F.TRIAD(np.array([a, a]), np.array([m, m]), frame=fr, representation=rep).A),
+               ('TRIAD.estimate', ('rotmat', 'quaternion'), lambda a, m, fr, rep: F.TRIAD(frame=fr).estimate(a, m, representation=rep)),
+               ('OLEQ', (None,), lambda a, m, fr, rep: oleq(a, m, fr)),
+               ('AQUA(acc, mag)', (None,), lambda a, m, fr, rep: F.AQUA(acc=a, mag=m, frame=fr).Q)]
+
+    def flat(o):
+        if isinstance(o, tuple):
+            return np.concatenate([np.ravel(np.asarray(x, float)) for x in o])
+        return np.ravel(np.asarray(o, float))
+    for lab, q in atts:
+        Rt = rq.R(q)
+        a = Rt @ np.array([0.0, 0.0, 1.0]) * 9.81
+        m = Rt @ np.array([rf.cd(dip), 0.0, rf.sd(dip)]) * 45.0
+        for name, reps, fn in entries:
+            for frame in ('NED', 'ENU'):
+                for rep in reps:
+                    try:
+                        ref = flat(fn(a.copy(), m.copy(), frame, rep))
+                    except Exception as ex:
+                        ctx.fail(f'{name}: raises on canonical options', f'att={lab} frame={frame} representation={rep}', f'{type(ex).__name__}: {ex}'[:160], 'an attitude'); continue
+                    variants = [(fs, rep) for fs in spell(frame) if fs != frame]
+                    if rep is not None:
+                        variants += [(frame, rs) for rs in spell(rep)] + [(frame.lower(), rep.capitalize())]
+                    for fs, rs in variants:
+                        ctx.evals += 1
+                        try:
+                            out = flat(fn(a.copy(), m.copy(), fs, rs))
+                        except (ValueError, TypeError):
+                            ctx.cls('spelling-refused'); continue           # refusal: not judged
+                        except Exception as ex:
+                            ctx.fail(f'{name}: an accepted option spelling crashes', f'att={lab} frame={fs!r} representation={rs!r}', f'{type(ex).__name__}: {ex}'[:160], 'the canonical answer'); continue
+                        same = out.shape == ref.shape and float(np.abs(out - ref).max()) <= 1e-12
+                        ctx.expect(same, f'{name}: an accepted spelling of frame / representation selects the same option as the canonical spelling',
+                                   f'att={lab} frame={fs!r} (canonical {frame!r}) representation={rs!r} (canonical {rep!r})', out, ref, 1e-12)
+                        ctx.seen(('spelling', name, lab, fs, rs))
+    ctx.cls('option-spellings')
+
+
 def run(ctx):
     A.selftest()
     k = A.seed_k(ctx.seed)
@@ -413,6 +474,7 @@ def run(ctx):
     for kk in ks:
         jobs.append(('job_weights', (kk,)))
         jobs.append(('job_default_refs', (kk,)))
+        jobs.append(('job_option_spellings', (kk,)))
     core.run_jobs(ctx, __name__, jobs)
     ctx.notes['estimator_entries'] = [e.name for e in rf.registry()]
     ctx.notes['class_sizes'] = {c: len(attitudes(c, k)) for c in ('S', 'Gp')}
